@@ -200,6 +200,9 @@ type Interp struct {
 	carries  map[string]string // poly.go: (polynomial, shift) -> carry variable
 	highOf   map[string]splitInfo // carry variable -> what it is the high part of
 	lowOf    map[string]splitInfo // key of a low part -> what it is the low part of
+	bools    map[string]string    // poly.go: boolean variables
+	slices   map[string]sliceInfo // poly.go: key of a bit slice -> its normal form
+	sliceDepth int
 }
 
 // NewInterp creates an interpreter with an empty heap.
@@ -617,8 +620,15 @@ func (it *Interp) instr(f *frame, in ssa.Instruction) {
 				r, lossy := Convert(iv, w, sg)
 				if it.H.Polys {
 					r.Poly = nil
+					r.PolyMod = false
 					if pv := it.polyOf(iv); pv != nil && !iv.Signed && !sg && iv.Lo.Sign() >= 0 {
-						r.Poly = it.polyLow(pv, iv.Hi, w)
+						if iv.PolyMod {
+							if w <= iv.W {
+								r.Poly = it.polyLowMod(pv, w)
+							}
+						} else {
+							r.Poly = it.polyLow(pv, iv.Hi, w)
+						}
 					}
 				}
 				if lossy && w < iv.W && !onlyMasked(x) {
@@ -843,6 +853,23 @@ func (it *Interp) selectByMask(a, b Val) (Val, bool) {
 			}
 			out := Join(r, ti)
 			out.Sym = mkSym("select", r.W, nil, m, r.Sym, t)
+			out.Poly, out.PolyMod = nil, false
+			if it.H.Polys {
+				// mask = B - 1 with B boolean: B = 1 keeps r, B = 0 takes t, i.e. r + (1-B)(t-r)
+				pr, ptt := it.polyOf(r), it.polyOf(ti)
+				if pm := mi.Poly; pm != nil && pr != nil && ptt != nil && !r.PolyMod && !ti.PolyMod {
+					sel := PolyScale(pm, big.NewInt(-1)) // 1 - B
+					okForm := len(pm.T) == 2 && pm.T[""] != nil && pm.T[""].Cmp(big.NewInt(-1)) == 0
+					for mono, c := range pm.T {
+						if mono != "" && (!strings.HasPrefix(mono, "B") || strings.Contains(mono, "*") || c.Cmp(big1) != 0) {
+							okForm = false
+						}
+					}
+					if okForm {
+						out.Poly = PolyAdd(pr, PolyMul(sel, PolyAdd(ptt, pr, -1)), 1)
+					}
+				}
+			}
 			return out, true
 		}
 		return Val{}, false
@@ -986,6 +1013,7 @@ func (it *Interp) binop(f *frame, x *ssa.BinOp) {
 			r = s
 		} else {
 			r = Xor(a, b)
+			r.Poly, r.PolyMod = nil, false
 		}
 	case token.AND_NOT:
 		r = And(a, Not(b))
@@ -1056,10 +1084,32 @@ func (it *Interp) binop(f *frame, x *ssa.BinOp) {
 				}
 			}
 		}
+		if x.Op != token.XOR { // a recognised select-by-mask already carries its polynomial
+			r.Poly, r.PolyMod = nil, false
+		}
 		if pop != "" {
-			r.Poly = it.polyBin(pop, a, b, r, k)
-		} else {
-			r.Poly = nil
+			r.Poly, r.PolyMod = it.polyBin(pop, a, b, r, k)
+		}
+		// the borrow idiom: (x - y) >> (W-1) is the truth value of x < y when both are below 2^(W-1) ...
+		if x.Op == token.SHR && k == a.W-1 && a.PolyMod && a.Poly != nil && a.Sym != nil && a.Sym.Op == "sub" && !a.Signed {
+			_, xh, ok1 := it.bounds(a.Sym.Args[0])
+			_, yh, ok2 := it.bounds(a.Sym.Args[1])
+			if ok1 && ok2 && xh.BitLen() < a.W && yh.BitLen() < a.W {
+				r.Poly, r.PolyMod = it.boolVar("lt:"+a.Poly.Key()), false
+			}
+		}
+		// ... and x - y + (lt(x,y) << k) is then the exact, non-negative difference modulo 2^k
+		if r.PolyMod && r.Poly != nil && r.Hi != nil {
+			if x.Op == token.ADD {
+				if kk, _, _, ok := isBorrowCompensation(a, b); ok && r.Hi.Cmp(new(big.Int).Sub(pow2(kk), big1)) == 0 && r.Lo.Sign() == 0 {
+					r.PolyMod = false
+				}
+			}
+			if x.Op == token.SUB {
+				if kk, _, _, ok := isBorrowCompensation2(a, b); ok && r.Hi.Cmp(new(big.Int).Sub(pow2(kk), big1)) == 0 && r.Lo.Sign() == 0 {
+					r.PolyMod = false
+				}
+			}
 		}
 	}
 	f.env[x] = it.note(r)
